@@ -306,6 +306,41 @@ pub fn run(ctx: &Ctx, rep: &mut Report) {
         );
         rep.sample("positions-exhaustive", json!({"site": "KDMX", "volume": 999, "prefix": "20240804-101007", "sequence": 55, "other_sequence": 1}));
     }
+    // prefixes whose digits collide with the sequence digits: every time of day HH:MM (thorough: HH:MM:SS) x every sequence
+    {
+        let mut n = 0u64;
+        let mut nt = 0u64;
+        let all_seconds = ctx.tier == crate::runner::Tier::Thorough;
+        for hh in 0..24usize {
+            for mm in 0..60usize {
+                for ss in 0..60usize {
+                    if !all_seconds && ss != (hh * 7 + mm) % 60 {
+                        continue;
+                    }
+                    for s in 1..=55usize {
+                        let prefix = format!("2024{:02}{:02}-{:02}{:02}{:02}", 1 + (s + mm) % 12, 1 + (s + hh) % 28, hh, mm, ss);
+                        let collides = prefix.contains(&format!("{:03}", s));
+                        let c = PosCase { site: "KCOL".into(), volume: 1 + (hh * 60 + mm + s) % 999, prefix, sequence: s, other_sequence: (s + ss) % 55 + 1 };
+                        n += 1;
+                        if collides {
+                            nt += 1;
+                        }
+                        if let Err(f) = crate::runner::guard(|| check_position(&c)).unwrap_or_else(|p| Err(Fail::new("panic:oracle-or-code", p))) {
+                            rep.record_failure("prefix-digit-collisions", f, json!(c));
+                        }
+                    }
+                }
+            }
+        }
+        rep.enumerated(
+            "prefix-digit-collisions",
+            "every time of day HH:MM (one second value each; thorough: every HH:MM:SS) x every sequence 1..=55 with varying dates: parse-back, with_sequence, successor; non-trivial = the prefix contains the zero-padded sequence as a digit substring",
+            n,
+            nt,
+            true,
+        );
+        rep.sample("prefix-digit-collisions", json!({"prefix": "20240813-014530", "sequence": 14}));
+    }
     // with_sequence over all 55 x 55 pairs at a few volumes
     {
         let mut n = 0u64;
